@@ -5,6 +5,7 @@ import (
 	"encoding/binary"
 	"encoding/json"
 	"fmt"
+	"strings"
 
 	"github.com/ozanh/ugo"
 	"github.com/ozanh/ugo/encoder/opv1"
@@ -29,7 +30,7 @@ func (c11) Rule() string {
 }
 func (c11) Batches(string) int { return 32 }
 func (c11) Required(string) []string {
-	return []string{"compared", "generated", "probes", "op.jump", "op.jumpfalsy", "op.andjump", "op.orjump", "op.setuptry", "functions_with_jumps_in_constants", "error_outcomes_with_trace", "downconvert_selfcheck_ok"}
+	return []string{"compared", "generated", "probes", "op.jump", "op.jumpfalsy", "op.andjump", "op.orjump", "op.setuptry", "functions_with_jumps_in_constants", "error_outcomes_with_trace", "downconvert_selfcheck_ok", "large_function_probes"}
 }
 func (c11) Assumptions() []string {
 	return []string{"harness DownConvert (validated per program by the harness's own inverse)", "encoder/opv1.OpcodeOperands is the repository's record of the v1 operand widths", "original v2 run is the reference"}
@@ -295,6 +296,68 @@ func c11countOps(c *core.Ctx, bc *ugo.Bytecode) (maxJumps int) {
 	return
 }
 
+// c11largeSrc builds a script whose one function holds nIf conditionals followed by a tail with a loop, a try statement,
+// logical operators and a conditional expression (all jumps of the tail have targets at the very end of the function).
+func c11largeSrc(nIf int, inFunc bool) string {
+	var sb strings.Builder
+	ind := ""
+	sb.WriteString("param x\n")
+	if inFunc {
+		sb.WriteString("f := func(x) {\n")
+		ind = "  "
+	}
+	sb.WriteString(ind + "n := 0\n")
+	for k := 0; k < nIf; k++ {
+		fmt.Fprintf(&sb, "%sif x == %d {\n%s  n += %d\n%s}\n", ind, 100+k, ind, 1+k%7, ind)
+	}
+	for _, l := range []string{
+		"for i := 0; i < 3; i++ {", "  n += i", "}",
+		"try {", "  if x == 1 {", "    throw \"t\"", "  }", "  n += 10", "} catch e {", "  n += 100", "} finally {", "  n += 1000", "}",
+		"b := x > 0 && n > 5 || x < -1", "return [n, b, x == 0 ? \"z\" : \"nz\"]",
+	} {
+		sb.WriteString(ind + l + "\n")
+	}
+	if inFunc {
+		sb.WriteString("}\nreturn f(x)\n")
+	}
+	return sb.String()
+}
+
+// largeProbe finds the largest such function that still fits the version-1 format (<= 65535 bytes) while its widened
+// version-2 layout exceeds 65535 bytes, and compares the runs.
+func (m c11) largeProbe(c *core.Ctx, inFunc bool) {
+	for nIf := 3700; nIf >= 2500; nIf -= 20 {
+		src := c11largeSrc(nIf, inFunc)
+		cr := safeCompile([]byte(src), ugo.CompilerOptions{NoOptimize: true})
+		if cr.err != nil || cr.panicv != "" {
+			c.Inconclusive("large probe does not compile: " + fmt.Sprint(cr.err) + cr.panicv)
+			return
+		}
+		if _, err := downConvert(cr.bc); err != nil {
+			continue
+		}
+		size := len(cr.bc.Main.Instructions)
+		for _, k := range cr.bc.Constants {
+			if cf, ok := k.(*ugo.CompiledFunction); ok && len(cf.Instructions) > size {
+				size = len(cf.Instructions)
+			}
+		}
+		if size <= 65535 {
+			c.Inconclusive(fmt.Sprintf("large probe: version-2 layout of the largest representable function is only %d bytes", size))
+			return
+		}
+		p := &Program{Src: src, Tags: []string{fmt.Sprintf("large function: %d conditionals, %d bytes in version-2 layout", nIf, size)}}
+		vecs := [][]ugo.Object{{ugo.Int(0)}, {ugo.Int(1)}, {ugo.Int(-2)}, {ugo.Int(100)}, {ugo.Int(int64(100 + nIf - 1))}, {ugo.Int(int64(100 + nIf/2))}}
+		if m.one(c, p, vecs, -1) {
+			c.Count("large_function_probes")
+			c.SetAdd("large_function_sizes", fmt.Sprintf("conditionals=%d v2bytes=%d inFunc=%v", nIf, size, inFunc))
+			c.Nontrivial(fmt.Sprintf("large-%v", inFunc))
+		}
+		return
+	}
+	c.Inconclusive("large probe: no representable size found")
+}
+
 func (m c11) Run(c *core.Ctx) {
 	if c.Replay != nil {
 		var w c11wit
@@ -321,6 +384,16 @@ func (m c11) Run(c *core.Ctx) {
 				c.Nontrivial(fmt.Sprint(opt) + progHash(p))
 			}
 		}
+	}
+	for _, inFunc := range []bool{false, true} {
+		idx++
+		if idx%c.NBatch != c.Batch {
+			continue
+		}
+		if !c.Begin(func() string { return fmt.Sprintf("large function probe inFunc=%v", inFunc) }) {
+			continue
+		}
+		m.largeProbe(c, inFunc)
 	}
 	n := c.Pick(400, 8000)
 	o := gen.Opts{MaxStmts: 28, MaxDepth: 4, ExprDepth: 3, Try: 0.5, Throw: 0.15, Funcs: 0.6, Shadow: 0.2, LogProb: 0.2,
